@@ -83,6 +83,19 @@ def prefixed(b, rng):
 RX = {"nats_client": 1, "nats_server": 2, "nats_scope": 3, "stomp": 4, "http": 5}
 
 
+def whole_frames(b):
+    """the byte stream is a sequence of complete frames (4-byte size within the limit, that many bytes)"""
+    i = 0
+    while i < len(b):
+        if len(b) - i < 4:
+            return False
+        n = struct.unpack(">I", b[i:i + 4])[0]
+        if n > 16384000 or len(b) - i - 4 < n:
+            return False
+        i += 4 + n
+    return True
+
+
 def run(ctx, br):
     rng = ctx.rng
     quick = ctx.tier == "quick"
@@ -170,6 +183,8 @@ def run(ctx, br):
                 bad = "a well-formed message sent after this one was not served"
         elif rx == "adapter" and r.get("closed") == -1:
             bad = "connection neither closed nor reported after the stream ended"
+        elif rx == "adapter" and r.get("closed") == 0 and not whole_frames(b):
+            bad = "the stream ended inside a frame and the connection was closed cleanly (nil cause)"
         if bad:
             viol += 1
             ctx.violation("C05: receiver %s: %s" % (rx, bad), {"entry": rx, "bytes": b.hex(), "observed": r})
